@@ -97,6 +97,10 @@ def copy_nonoverlapping (c : Cfg) (src dst n : Nat) (s : VW) : VW × Outcome Uni
   if src + n ≤ dst ∨ dst + n ≤ src then (s.1.copy c src dst n s.2, .ok ())
   else (s, .bad "copy_nonoverlapping on overlapping ranges")
 
+/-- `ptr::copy_nonoverlapping(src, p.add(dst), n)` from a slice outside the buffer (its first `n` slots) -/
+def copy_in (c : Cfg) (src : List (Option Elem)) (dst n : Nat) (s : VW) : VW × Outcome Unit :=
+  (s.1.copyFrom c (src.take n) dst s.2, .ok ())
+
 /-- drop glue of an owned local while unwinding (a second panic here would abort the process) -/
 def drop_elem (c : Cfg) (e : Elem) (s : VW) : VW := (s.1, (dropElem c s.2 e).1)
 
